@@ -1,4 +1,85 @@
+use crate::opts;
+use crate::tree;
 use crate::{hex, unhex};
+use comrak::nodes::AstNode;
+use comrak::{format_commonmark, format_html, format_xml, parse_document, Arena, Options};
+use std::panic::{self, AssertUnwindSafe};
+
+fn panic_msg(e: Box<dyn std::any::Any + Send>) -> String {
+    if let Some(s) = e.downcast_ref::<&str>() {
+        s.to_string()
+    } else if let Some(s) = e.downcast_ref::<String>() {
+        s.clone()
+    } else {
+        "?".to_string()
+    }
+}
+
+/// run one render stage under catch_unwind: "<hex>" or "!<hexmsg>"
+fn stage<F: FnOnce() -> Vec<u8>>(f: F) -> String {
+    match panic::catch_unwind(AssertUnwindSafe(f)) {
+        Ok(v) => hex(&v),
+        Err(e) => format!("!{}@{}", hex(panic_msg(e).as_bytes()), crate::last_panic_loc()),
+    }
+}
+
+pub fn render<'a>(fmt: &str, root: &'a AstNode<'a>, o: &Options) -> Vec<u8> {
+    let mut out = vec![];
+    match fmt {
+        "html" => format_html(root, o, &mut out).unwrap(),
+        "xml" => format_xml(root, o, &mut out).unwrap(),
+        "cm" => format_commonmark(root, o, &mut out).unwrap(),
+        _ => panic!("unknown format"),
+    }
+    out
+}
+
+/// parent/child/sibling links mutually consistent, via the public accessors only
+fn links_ok<'a>(root: &'a AstNode<'a>) -> Result<(), String> {
+    let mut stack = vec![root];
+    let mut count = 0usize;
+    if root.parent().is_some() || root.previous_sibling().is_some() || root.next_sibling().is_some() {
+        return Err("root has parent or siblings".into());
+    }
+    while let Some(n) = stack.pop() {
+        count += 1;
+        let mut prev: Option<&'a AstNode<'a>> = None;
+        let mut c = n.first_child();
+        if let Some(f) = c {
+            if f.previous_sibling().is_some() {
+                return Err("first child has a previous sibling".into());
+            }
+        } else if n.last_child().is_some() {
+            return Err("last_child without first_child".into());
+        }
+        let mut steps = 0usize;
+        while let Some(ch) = c {
+            steps += 1;
+            if steps > 10_000_000 {
+                return Err("sibling cycle".into());
+            }
+            match ch.parent() {
+                Some(p) if p.same_node(n) => {}
+                _ => return Err("child's parent is not the node".into()),
+            }
+            match (prev, ch.previous_sibling()) {
+                (None, None) => {}
+                (Some(a), Some(b)) if a.same_node(b) => {}
+                _ => return Err("previous_sibling inconsistent with next_sibling".into()),
+            }
+            stack.push(ch);
+            prev = Some(ch);
+            c = ch.next_sibling();
+        }
+        match (prev, n.last_child()) {
+            (None, None) => {}
+            (Some(a), Some(b)) if a.same_node(b) => {}
+            _ => return Err("last_child is not the end of the sibling chain".into()),
+        }
+    }
+    let _ = count;
+    Ok(())
+}
 
 fn ok(b: &[u8]) -> String {
     format!("ok {}", hex(b))
@@ -32,6 +113,126 @@ pub fn dispatch(op: &str, a: &[String]) -> String {
             let mut o = vec![];
             comrak::html::write_opening_tag(&mut o, &tag, attrs).unwrap();
             ok(&o)
+        }
+        // parse <opts> <md>  ->  ok <tree>
+        "parse" => {
+            let o = opts::decode(&a[0]);
+            let md = String::from_utf8(arg(1)).expect("input must be utf-8");
+            let arena = Arena::new();
+            let root = parse_document(&arena, &md, &o);
+            let mut t = String::new();
+            tree::dump(root, &mut t);
+            format!("ok {}", t)
+        }
+        // md <fmt> <opts> <md>  ->  ok <hex>
+        "md" => {
+            let o = opts::decode(&a[1]);
+            let md = String::from_utf8(arg(2)).expect("input must be utf-8");
+            let arena = Arena::new();
+            let root = parse_document(&arena, &md, &o);
+            ok(&render(&a[0], root, &o))
+        }
+        // pipe <opts> <md> -> ok <tree> | V <0/1> | L <0/1> <hexmsg> | H <hex|!msg> | X <..> | C <..>
+        "pipe" => {
+            let o = opts::decode(&a[0]);
+            let md = String::from_utf8(arg(1)).expect("input must be utf-8");
+            let arena = Arena::new();
+            let root = parse_document(&arena, &md, &o);
+            let mut t = String::new();
+            tree::dump(root, &mut t);
+            let v = match root.validate() {
+                Ok(()) => "1".to_string(),
+                Err(comrak::nodes::ValidationError::InvalidChildType { parent, child }) => format!(
+                    "0 {}>{}",
+                    comrak::verif::nodes::xml_node_name(&parent.data.borrow().value),
+                    comrak::verif::nodes::xml_node_name(&child.data.borrow().value)
+                ),
+            };
+            let l = links_ok(root);
+            let h = stage(|| render("html", root, &o));
+            let x = stage(|| render("xml", root, &o));
+            let c = stage(|| render("cm", root, &o));
+            format!(
+                "ok {} | V {} | L {} {} | H {} | X {} | C {}",
+                t,
+                v,
+                if l.is_ok() { 1 } else { 0 },
+                hex(l.err().unwrap_or_default().as_bytes()),
+                h,
+                x,
+                c
+            )
+        }
+        // render <fmt> <opts> <tree tokens...> -> ok <hex>
+        "render" => {
+            let o = opts::decode(&a[1]);
+            let arena = Arena::new();
+            let root = tree::build(&arena, &a[2..]);
+            ok(&render(&a[0], root, &o))
+        }
+        // rt <opts> <md> -> ok H1 | C1 | H2 | C2   (CommonMark round trip, each stage guarded)
+        "rt" => {
+            let o = opts::decode(&a[0]);
+            let md = String::from_utf8(arg(1)).expect("input must be utf-8");
+            let arena = Arena::new();
+            let root = parse_document(&arena, &md, &o);
+            let h1 = stage(|| render("html", root, &o));
+            let c1v = panic::catch_unwind(AssertUnwindSafe(|| render("cm", root, &o)));
+            match c1v {
+                Err(e) => format!("ok {} | !{}@{} | - | -", h1, hex(panic_msg(e).as_bytes()), crate::last_panic_loc()),
+                Ok(c1) => {
+                    let c1s = String::from_utf8(c1.clone()).expect("cm output utf-8");
+                    let arena2 = Arena::new();
+                    let root2 = parse_document(&arena2, &c1s, &o);
+                    let h2 = stage(|| render("html", root2, &o));
+                    let c2 = stage(|| render("cm", root2, &o));
+                    format!("ok {} | {} | {} | {}", h1, hex(&c1), h2, c2)
+                }
+            }
+        }
+        "tagfilter" => okb(comrak::html::verif_tagfilter(&arg(0))),
+        "tagfilter_block" => {
+            let mut o = vec![];
+            comrak::html::verif_tagfilter_block(&arg(0), &mut o).unwrap();
+            ok(&o)
+        }
+        "dangerous_url" => okb(comrak::html::verif_dangerous_url(&arg(0))),
+        "shortest_unused_sequence" => format!("ok {}", comrak::verif::cm::shortest_unused_sequence(&arg(0), arg(1)[0])),
+        "longest_char_sequence" => format!("ok {}", comrak::verif::cm::longest_char_sequence(&arg(0), arg(1)[0])),
+        // split_fm <delimiter> <input>  ->  ok <front matter> <rest> | none
+        "split_fm" => {
+            let d = String::from_utf8(arg(0)).expect("utf-8");
+            let s = String::from_utf8(arg(1)).expect("utf-8");
+            match comrak::verif::strings::split_off_front_matter(&s, &d) {
+                Some((fm, rest)) => format!("ok {} {}", hex(fm.as_bytes()), hex(rest.as_bytes())),
+                None => "none".to_string(),
+            }
+        }
+        // lines <opts> <md> -> ok <hexline>*   (every slice handed to process_line, in order)
+        "lines" => {
+            let o = opts::decode(&a[0]);
+            let md = String::from_utf8(arg(1)).expect("input must be utf-8");
+            let arena = Arena::new();
+            comrak::verif::line_log_start();
+            let _root = parse_document(&arena, &md, &o);
+            let lines = comrak::verif::line_log_take();
+            let mut s = String::from("ok");
+            for l in lines {
+                s.push(' ');
+                s.push_str(&hex(&l));
+            }
+            s
+        }
+        // anchorize <header>* -> ok <id>*   (one Anchorizer, headers in order)
+        "anchorize" => {
+            let mut anc = comrak::Anchorizer::new();
+            let mut s = String::from("ok");
+            for i in 0..a.len() {
+                let id = anc.anchorize(String::from_utf8(arg(i)).expect("utf-8"));
+                s.push(' ');
+                s.push_str(&hex(id.as_bytes()));
+            }
+            s
         }
         _ => format!("err unknown-op {}", op),
     }
